@@ -84,8 +84,10 @@ def _next_sort_index() -> int:
 def reset_event_counter() -> None:
     """Reset the global event counter to zero.
 
-    Called by Simulation.__init__() so each simulation run gets
-    deterministic sort indices starting from 0.
+    Not called by the library: tie-breaking only needs indices that grow with
+    creation order, and a reset between the creation of two events of the
+    same model would invert or collapse their order. Kept for callers that
+    want small event ids at the start of a fresh process.
     """
     global _global_event_counter
     _global_event_counter = _IndexCounter()
